@@ -61,6 +61,42 @@ def op_combined_features(job):
     return out
 
 
+def op_combined_indexed(job):
+    """compute_combined_features on frames whose ROW INDEX is not 0..n-1 (rows shuffled, filtered or sorted without
+    reset_index): returned per index shape: for every new column the positional partition and the partition of the value
+    tuples, row count and whether the original columns are unchanged."""
+    import random
+    rng = random.Random(job['seed'])
+    n = job['rows']
+    vals = job['values']
+    base = pd.DataFrame({c: [rng.choice(vals) for _ in range(n)] for c in job['columns'] if c != 'label'})
+    base['label'] = [str(i % 2) for i in range(n)]
+    base = base[job['columns']]
+    out = {}
+    for shape in ('default', 'shuffled', 'filtered', 'sorted'):
+        if shape == 'default':
+            df = base.copy()
+        elif shape == 'shuffled':
+            df = base.sample(frac=1, random_state=job['seed'])
+        elif shape == 'filtered':
+            df = base[[i % 3 != 1 for i in range(n)]]
+        else:
+            df = base.sort_values(job['columns'][0], kind='stable')
+        before = df.copy(deep=True)
+        args = L.make_args(**job.get('args', {}))
+        L.reset_globals()
+        res = CR.compute_combined_features(df, args, L.Pbar(), False)
+        new = [c for c in res.columns if c not in job['columns']]
+        rec = {'nrows_in': int(before.shape[0]), 'nrows_out': int(res.shape[0]), 'new': new,
+               'untouched': bool(res.shape[0] == before.shape[0] and all(res[c].tolist() == before[c].tolist() for c in job['columns'])), 'parts': {}}
+        if res.shape[0] == before.shape[0]:
+            for c in new:
+                names = c.split(' AND ')
+                rec['parts'][c] = [L.partition_of([str(v) for v in res[c].tolist()]), L.partition_of([repr(t) for t in zip(*[before[x].tolist() for x in names])])]
+        out[shape] = rec
+    return out
+
+
 def op_combined_large(job):
     """A frame with very many distinct joint values (built here from the seed): the interaction feature must
     separate all of them (C10 allows only 64-bit hash collisions).  job: rows, seed, args."""
